@@ -7,25 +7,35 @@ CONFIG = {
         "n": {"quick": 8000, "thorough": 48000, "search": 9600},
         "shards": {"quick": 16, "thorough": 16, "search": 16},
         "timeout_s": 1500,
-        "rule": "seeded generator of j5s objects with 1-4 fields (every field type, rules as in compile.rules plus descriptions, "
-                "list filter/sort/search settings, flatten, key formats, primary/foreign/tenant entity keys, enum declarations "
-                "with prefixes and explicit UNSPECIFIED), compiled by the real compiler, reflected by lib/j5schema "
-                "(SchemaCache.Schema / ToJ5Object) from the in-memory descriptors and from protoprint text re-parsed with "
-                "protocompile. Oracle: declared schema (built from the generator's spec, not from the parser) = reflected schema, "
+        "rule": "corpus (one witness op per open finding + the witnesses of fixed findings) then a seeded generator of j5s roots: "
+                "`object Foo` (5 in 6; optional description, entity annotation with every part, any-membership, sometimes an "
+                "entity-annotated referenced object and a field called `keys`) or `oneof Foo` (1 in 6) with 1-4 fields / options: "
+                "every field type as single field, array (1 in 4) or map (1 in 7, with minPairs/maxPairs/singleForm), rules as in "
+                "compile.rules plus descriptions, list filter/sort/search settings (enum default filters: 9 in 10 naming options, "
+                "with or without prefix), flatten, key formats, primary/foreign/tenant entity keys, enum declarations with "
+                "prefixes, prefixed options and explicit UNSPECIFIED; compiled by the real compiler, reflected by lib/j5schema "
+                "(SchemaCache.Schema / ToJ5Root) from the in-memory descriptors and from protoprint text re-parsed with "
+                "protocompile. Oracle: declared root and fields (built from the generator's spec, not from the parser) = reflected, "
                 "key by key, modulo normalisations N1-N6 (harness/PROTOCOL-rules.md); text path = in-memory path. "
-                "Non-trivial = a field whose declared and reflected canonical forms agree; distinct by canonical form.",
+                "Non-trivial = a field (or annotated root) whose declared and reflected canonical forms agree; distinct by canonical form.",
     }],
     "trusted_base": [
         "Lean 4.33.0 kernel; axioms propext, Classical.choice, Quot.sound",
         "hand-written models J5V/Rules/Compile.lean (writer: buildField/buildProperty/setJ5Ext annotations) and J5V/Rules/Reader.lean "
         "(messageProperties/buildSchemaProperty/buildScalarType/buildFromStringProto/wktSchema/buildMessageFieldSchema/"
         "buildEnumFieldSchema/buildEnum), validated by the compile.schema stream",
-        "list-rule payloads are opaque to the model (copied verbatim by writer and reader)",
+        "hand-written model J5V/Rules/Root.lean (visitObjectNode / visitOneofNode message options, findPSMOptions incl. the legacy `keys` lookup, "
+        "isOneofWrapper by message option); the (j5.ext.v1.psm) annotation of referenced objects is a parameter (`RefPsm`)",
+        "list-rule payloads are copied verbatim by writer and reader models; only filtering.defaultFilters is decoded (the compiler checks it for enum fields)",
+        "strcase.ToSnake(name) = \"keys\" only for the j5 name `keys` (lowerCamel letter names of the generator)",
         "protocompile (linking, re-parsing) and protoprint are outside the model: the text path is a Go-side oracle only (composition with C05)",
         "the Go harness internal/verifh/rulesh",
     ],
     "assumptions": [
         "descriptions are non-empty trimmed lines not starting with '#' (the reader's comment normalisation)",
         "option numbers are not declared in j5s text",
+        "options of a oneof root are neither arrays nor maps (the compiler accepts them but emits a repeated field inside a proto oneof, which "
+        "does not re-parse: observation, compile cluster's C07) and carry no `!` / `?`",
+        "map keys are plain strings (j5s keySchema is ignored by the compiler; not generated)",
     ],
 }
